@@ -17,6 +17,7 @@ constants**).  Model: `ClvmModel/Interp/Ops.lean` (frozen; in differential corre
 -/
 import ClvmProofs.Lemmas.Interp.CostArith
 import ClvmProofs.Lemmas.TreeHash
+import ClvmProofs.Lemmas.Interp.CostDoc
 
 namespace Clvm.Props.C10
 open Clvm Clvm.Alloc Clvm.Interp
@@ -335,5 +336,109 @@ theorem sha256tree_cost (nm : Bool) (t : Tree) :
 /-- the cost theorems are not vacuous: `(logand 0x7fff 1)` under the new cost model costs 650 (the markdown formula gives 647: DESIGN §6-G) -/
 example : ((opLogand 0x2000 100000 (.pair (.atom [0x7f, 0xff] false) (.pair (.atom [1] true) Val.nil))
     (Ctr.new 1000)).toOption.map (·.1)) = some 650 := by decide +kernel
+
+/-! ### finding G: docs/cost-model.md vs the code (NEW_COST_MODEL)
+
+`Spec.CostDoc` holds the formulas exactly as the markdown states them.  The witnesses below are
+concrete successful calls of the model (= the crate: oracle `costs_doc` replays them) whose charged cost
+differs from the markdown formula; `doc_agrees_*` delimit the finding: on "tight" arguments (atom
+length = magnitude of the value: no redundant leading byte, no sign byte) the two readings of add /
+subtract / multiply / div / divmod / mod / modpow coincide, and for logand / logior / logxor they coincide
+whenever no accumulator is longer than the argument it meets.  KNOWN_FINDINGS `G-doc-cost-model`. -/
+
+/-- a proper argument list -/
+def argsOf : List Val → Val
+  | [] => Val.nil
+  | a :: r => .pair a (argsOf r)
+
+/-- `(charged cost, cost by the markdown formula)` of a successful call -/
+def chargedVsDoc (r : Except Err (Nat × Val × Ctr)) (doc : Val → Nat) : Option (Nat × Nat) :=
+  r.toOption.map (fun x => (x.1, doc x.2.1))
+
+def h (b : Bytes) : Val := .atom b false
+def NM : Flags := 0x2000
+def C0 : Ctr := Ctr.new 1000000
+
+theorem doc_formula_witness_logand :
+    chargedVsDoc (opLogand NM 1000000 (argsOf [h [0x40, 0, 0], h [1]]) C0)
+      (Spec.CostDoc.opLog intAnd (-1) [h [0x40, 0, 0], h [1]]) = some (646, 640) := by decide +kernel
+theorem doc_formula_witness_logand_first :
+    chargedVsDoc (opLogand NM 1000000 (argsOf [h []]) C0)
+      (Spec.CostDoc.opLog intAnd (-1) [h []]) = some (367, 364) := by decide +kernel
+theorem doc_formula_witness_logior :
+    chargedVsDoc (opLogior NM 1000000 (argsOf [h [0x40, 0, 0], h [1]]) C0)
+      (Spec.CostDoc.opLog intOr 0 [h [0x40, 0, 0], h [1]]) = some (676, 670) := by decide +kernel
+theorem doc_formula_witness_logxor :
+    chargedVsDoc (opLogxor NM 1000000 (argsOf [h [0x40, 0, 0], h [1]]) C0)
+      (Spec.CostDoc.opLog intXor 0 [h [0x40, 0, 0], h [1]]) = some (676, 670) := by decide +kernel
+theorem doc_formula_witness_add :
+    chargedVsDoc (opAdd {} NM 1000000 (argsOf [h [0, 0, 1]]) C0)
+      (Spec.CostDoc.opAdd [h [0, 0, 1]]) = some (621, 613) := by decide +kernel
+theorem doc_formula_witness_subtract :
+    chargedVsDoc (opSubtract {} NM 1000000 (argsOf [h [0, 0, 1]]) C0)
+      (Spec.CostDoc.opSubtract [h [0, 0, 1]]) = some (621, 613) := by decide +kernel
+theorem doc_formula_witness_multiply :
+    chargedVsDoc (opMultiply {} NM 1000000 (argsOf [h [0, 0, 2], h [0, 0, 3]]) C0)
+      (Spec.CostDoc.opMultiply [h [0, 0, 2], h [0, 0, 3]]) = some (2949, 2913) := by decide +kernel
+theorem doc_formula_witness_div :
+    chargedVsDoc (opDiv NM 1000000 (argsOf [h [0, 0, 7], h [0, 0, 2]]) C0)
+      (Spec.CostDoc.opDiv [h [0, 0, 7], h [0, 0, 2]]) = some (1310, 1110) := by decide +kernel
+theorem doc_formula_witness_divmod :
+    chargedVsDoc (opDivmod NM 1000000 (argsOf [h [0, 0, 7], h [0, 0, 2]]) C0)
+      (Spec.CostDoc.opDivmod [h [0, 0, 7], h [0, 0, 2]]) = some (1320, 1120) := by decide +kernel
+theorem doc_formula_witness_mod :
+    chargedVsDoc (opMod NM 1000000 (argsOf [h [0, 0, 7], h [0, 0, 2]]) C0)
+      (Spec.CostDoc.opMod [h [0, 0, 7], h [0, 0, 2]]) = some (1310, 1110) := by decide +kernel
+theorem doc_formula_witness_modpow :
+    chargedVsDoc (opModpow NM 1000000 (argsOf [h [0, 2], h [0, 3], h [0, 5]]) C0)
+      (Spec.CostDoc.opModpow [h [0, 2], h [0, 3], h [0, 5]]) = some (81078, 49019) := by decide +kernel
+
+open Spec.CostDoc in
+/-- add / subtract: the markdown's `max(accumulator.limbs, arg.limbs)` and the code's
+`max(accumulator.limbs, atom_len)` agree on tight arguments -/
+theorem doc_agrees_add_subtract (args : List Val) (res : Val) (ht : ∀ a ∈ args, Tight a) :
+    Spec.Cost.opAdd true args res = Spec.CostDoc.opAdd args res ∧
+    Spec.Cost.opSubtract true args res = Spec.CostDoc.opSubtract args res := by
+  simp only [Spec.Cost.opAdd, Spec.Cost.opSubtract, Spec.CostDoc.opAdd, Spec.CostDoc.opSubtract, if_true,
+    sumMax_eq_mag args ht, and_self]
+
+open Spec.CostDoc in
+/-- multiply: agreement on tight arguments -/
+theorem doc_agrees_multiply (args : List Val) (res : Val) (ht : ∀ a ∈ args, Tight a) :
+    Spec.Cost.opMultiply true args res = Spec.CostDoc.opMultiply args res := by
+  cases args with
+  | nil => rfl
+  | cons a0 rest =>
+    have h0 : Spec.Cost.len a0 = mag a0 := ht a0 (by simp)
+    have hr := mulSteps_eq rest (fun x hx => ht x (by simp [hx])) (Spec.Cost.int a0)
+    simp only [Spec.Cost.opMultiply, Spec.CostDoc.opMultiply, if_true, h0]
+    rw [← hr]; rfl
+
+open Spec.CostDoc in
+/-- div / divmod / mod / modpow: agreement on tight arguments -/
+theorem doc_agrees_div_modpow (a b e : Val) (res : Val) (ha : Tight a) (hb : Tight b) (he : Tight e) :
+    Spec.Cost.opDiv true [a, b] res = Spec.CostDoc.opDiv [a, b] res ∧
+    Spec.Cost.opMod true [a, b] res = Spec.CostDoc.opMod [a, b] res ∧
+    Spec.Cost.opDivmod true [a, b] res = Spec.CostDoc.opDivmod [a, b] res ∧
+    Spec.Cost.opModpow true [a, b, e] res = Spec.CostDoc.opModpow [a, b, e] res := by
+  have ha' : Spec.Cost.len a = mag a := ha
+  have hb' : Spec.Cost.len b = mag b := hb
+  have he' : Spec.Cost.len e = mag e := he
+  simp [Spec.Cost.opDiv, Spec.Cost.opMod, Spec.Cost.opDivmod, Spec.Cost.opModpow, Spec.CostDoc.opDiv,
+    Spec.CostDoc.opMod, Spec.CostDoc.opDivmod, Spec.CostDoc.opModpow, Spec.CostDoc.divBase, Spec.Cost.sizes2,
+    ha', hb', he']
+  cases res <;> rfl
+
+open Spec.CostDoc in
+/-- logand / logior / logxor: agreement whenever every argument is at least as long as the accumulator
+it is combined with (then `max(len, acc.limbs) = len` whatever the signs) -/
+theorem doc_agrees_log (f : Int → Int → Int) (init : Int) (args : List Val) (res : Val)
+    (hl : ∀ p ∈ args.zip (Spec.Cost.logAccs f init args), Spec.Cost.limbs p.2 ≤ Spec.Cost.len p.1) :
+    Spec.Cost.opLog f init true args res = Spec.CostDoc.opLog f init args res := by
+  simp only [Spec.Cost.opLog, Spec.CostDoc.opLog, if_true, Spec.Cost.sumMax, logEffective_eq _ hl true]
+
+/-- the agreement region is inhabited: `(+ 1 2)` is tight -/
+example : Spec.CostDoc.Tight (h [1]) ∧ Spec.CostDoc.Tight (h [2]) := by
+  constructor <;> (unfold Spec.CostDoc.Tight; decide +kernel)
 
 end Clvm.Props.C10
